@@ -48,3 +48,17 @@ Proof. vm_compute. reflexivity. Qed.
 Example no_common_columns :
   res_map (flatten Z) (zreindex index0 columns0 layout_b (Some [2; 3]) (Some [40])) = Ok [(DFlt 8, [-1; -1])].
 Proof. vm_compute. reflexivity. Qed.
+
+(* operator between two layouts that are neither block- nor reblock-compatible ([2-D int,int | float] vs
+   [int | 2-D float,float]): column by column, the same as between any other layouts of these columns *)
+Definition tb_a := [mk_blk Z (DInt true 8) false [[1; 2]; [3; 4]]; mk_blk Z (DFlt 8) true [[5; 6]]].
+Definition tb_b := [mk_blk Z (DInt true 8) true [[10; 20]]; mk_blk Z (DFlt 8) false [[30; 40]; [50; 60]]].
+Example tb_binop_incompatible_layouts :
+  block_compatible Z tb_a tb_b = false /\ reblock_compatible Z tb_a tb_b = false /\
+  M_tb_binop_g Z Z Z.add tb_a tb_b = Ok [[11; 22]; [33; 44]; [55; 66]].
+Proof. vm_compute. repeat split; reflexivity. Qed.
+Example tb_binop_reblock_path :
+  block_compatible Z tb_a [mk_blk Z (DInt true 8) true [[10; 20]]; mk_blk Z (DInt true 8) true [[30; 40]]; mk_blk Z (DFlt 8) false [[50; 60]]] = false /\
+  M_tb_binop_g Z Z Z.add tb_a [mk_blk Z (DInt true 8) true [[10; 20]]; mk_blk Z (DInt true 8) true [[30; 40]]; mk_blk Z (DFlt 8) false [[50; 60]]]
+  = Ok [[11; 22]; [33; 44]; [55; 66]].
+Proof. vm_compute. split; reflexivity. Qed.
